@@ -211,6 +211,18 @@ pub fn gen_c18(em: &mut Emitter, rng: &mut Rng) {
             claims.push(EnumerationClaim { dst: t.to_string(), value: 1, total_values: 3 }.into());
         }
     }
+    // identifiers a lenient reader might identify: spellings of one UUID, case, padding, URL / path decorations
+    for base in ["123e4567-e89b-12d3-a456-426614174000", "a1b2c3d4-0000-4000-8000-00000000abcd"] {
+        let plain = base.replace('-', "");
+        for t in [base.to_string(), base.to_uppercase(), plain.clone(), plain.to_uppercase(), format!("{{{}}}", base), format!("urn:uuid:{}", base), format!(" {}", base), format!("{} ", base), format!("{}\n", base), format!("0x{}", plain)] {
+            claims.push(RevocationClaim::from(t.as_str()).into());
+            claims.push(HashedClaim::from(t.as_str()).into());
+        }
+    }
+    for t in ["alice", "Alice", "ALICE", "alice ", "alice/", "alice?", "alice#", "https://id.example/alice", "https://id.example/alice/", "HTTPS://ID.EXAMPLE/alice", "0", "00", "+0", "-0", "0.0", "1e0", "１"] {
+        claims.push(RevocationClaim::from(t).into());
+        claims.push(HashedClaim::from(t).into());
+    }
     let totals: Vec<usize> = vec![0, 1, 2, 3, 255, 256, 65535, 65536, 65537, 65539, u32::MAX as usize, usize::MAX];
     for _ in 0..em.n(150, 2500) {
         let dst: String = if rng.chance(1, 8) {
